@@ -82,6 +82,10 @@ func validOp(op HOp) error {
 	case "none", "version", "locktime", "in-vout", "in-seq", "in-prevsats", "in-unlock", "in-unlock-nil", "in-prev", "in-prev-nil",
 		"in-unlock-flip", "in-unlock-append", "out-sats", "out-script", "out-flip", "out-append", "del-in", "del-out",
 		"clear-in", "clear-out", "swap-in", "swap-out", "clone":
+	case "fail":
+		if !knownFailKind(string(op.B)) {
+			return fmt.Errorf("unknown failing call")
+		}
 	case "in-txid":
 		if len(op.B) != 32 {
 			return fmt.Errorf("in-txid with %d bytes", len(op.B))
@@ -687,6 +691,10 @@ func checkHistory(ctx *pbt.Ctx, c History) error {
 				return err
 			}
 			ctx.Labelf("readfrom-into-populated ext=%v", op.Ext)
+		case "fail":
+			// a failing call in between (on other objects / inputs derived from the current
+			// content): it must leave no trace in the answers that follow
+			ctx.Label("failing call " + string(op.B) + ": " + failingCall(string(op.B), m, op.At, int(op.U64%1000), op.Ext))
 		default:
 			before := m
 			applyModel(op, &m)
@@ -763,7 +771,7 @@ var plainKinds = []string{
 	"version", "locktime", "in-vout", "in-seq", "in-seq", "in-prevsats", "in-prevsats", "in-txid", "in-unlock", "in-unlock-nil", "in-prev", "in-prev-nil",
 	"in-unlock-flip", "in-unlock-append", "out-sats", "out-sats", "out-script", "out-flip", "out-flip", "out-append", "out-append",
 	"add-in", "add-out", "add-out", "ins-in", "ins-out", "replace-in", "replace-out", "del-in", "del-out", "clear-in", "clear-out",
-	"swap-in", "swap-out", "clone", "clone", "clone", "readfrom", "readfrom", "none",
+	"swap-in", "swap-out", "clone", "clone", "clone", "readfrom", "readfrom", "none", "fail", "fail", "fail",
 }
 
 // shorten keeps the scripts of elements that are about to be replicated 65536
@@ -859,6 +867,11 @@ func genHistory(t *rapid.T) History {
 			}
 		case "clone":
 			op.Switch = rapid.Bool().Draw(t, "switch")
+		case "fail":
+			op.B = pbt.Hex(rapid.SampledFrom(failKinds).Draw(t, "fail"))
+			op.At = rapid.IntRange(0, 2000).Draw(t, "fail_at")
+			op.U64 = uint64(rapid.IntRange(0, 11).Draw(t, "fail_variant"))
+			op.Ext = rapid.Bool().Draw(t, "fail_ext")
 		}
 		switch op.Kind {
 		case "add-in", "ins-in", "replace-in":
